@@ -88,7 +88,9 @@ def gen_cases(ctx):
             seen_c.add(c[0]); seen_n.add(n)
             picked.append((n, c, fm))
         for n, c, fm in picked:
-            ops = [('train',)] if rng.random() < 0.85 else [('eval',)]
+            st = rng.random() < 0.7                    # mode of the seed network handed to the constructor
+            r0 = rng.random()
+            ops = [] if r0 < 0.2 else [('train',)] if r0 < 0.85 else [('eval',)]     # 20%: the run never calls train()/eval() first
             pos = rng.randint(0, n)
             kind = rng.choice(['sgd', 'adam'])
             for i in range(n):
@@ -101,14 +103,14 @@ def gen_cases(ctx):
                 ops += c[1]
             if fm == 'eval' or rng.random() < 0.3:
                 ops.append((fm,))
-            cases.append({'cfg': dict(v, seed=rng.randint(0, 3)), 'ops': ops, 'kind': '%s:%s:steps%d:%s' % (v['method'], c[0], n, fm), 'vi': vi})
+            cases.append({'cfg': dict(v, opts=dict(v['opts'], seed_training=st), seed=rng.randint(0, 3)), 'ops': ops, 'kind': '%s:%s:steps%d:%s' % (v['method'], c[0], n, fm), 'vi': vi})
     # random histories
     nrand = 30 if ctx.quick else 300
     for i in range(nrand):
         vi = rng.randrange(len(V))
         v = V[vi]
         chs = option_changes(v)
-        ops = [rng.choice([('train',), ('train',), ('eval',)])]      # a run starts with an explicit mode call
+        ops = [rng.choice([('train',), ('train',), ('eval',)])] if rng.random() < 0.8 else []
         for _ in range(rng.randint(1, 8)):
             r = rng.random()
             if r < 0.35:
@@ -119,7 +121,7 @@ def gen_cases(ctx):
                 ops.append(rng.choice([('train',), ('eval',)]))
             else:
                 ops += rng.choice(chs)[1]
-        cases.append({'cfg': dict(v, seed=rng.randint(0, 3)), 'ops': ops, 'kind': '%s:random' % v['method'], 'vi': vi})
+        cases.append({'cfg': dict(v, opts=dict(v['opts'], seed_training=rng.random() < 0.6), seed=rng.randint(0, 3)), 'ops': ops, 'kind': '%s:random' % v['method'], 'vi': vi})
     return cases
 
 
@@ -193,18 +195,25 @@ def oracle(case, res):
         unex = sorted(set(res['ckpt_keys']) - set(res['fresh_keys']))
         suffix = (miss + unex)[0].split('.')[-1]
         out.append(('load-keys:%s:%s' % (m, suffix), 'state_dict keys of the checkpoint differ from those of a fresh wrapper: missing %s unexpected %s' % (miss, unex)))
+    for pr, l2 in res.get('loads', {}).items():
+        if not l2['ok']:
+            ld = l2
     if not ld['ok']:
         out.append(('load-raises:%s:%s' % (m, ld['exc']), 'load_state_dict(strict=True) raised %s: %s' % (ld['exc'], ld['msg'][:300])))
         return out
     if ld['missing'] or ld['unexpected']:
         out.append(('load-keys:%s:%s' % (m, (ld['missing'] + ld['unexpected'])[0].split('.')[-1]), 'missing %s unexpected %s' % (ld['missing'], ld['unexpected'])))
     ch = res['changed']
-    for k in OBS:
-        if not res['eq'][k]:
-            opt = ch[0] if ch else 'no-option-change'
-            out.append(('resume-differs:%s:%s:%s' % (m, opt, k),
-                        '%s of the restored %s wrapper differs from the original after the forward pass (options changed after construction and not in the state_dict: %s): original %s, restored %s'
-                        % (k, m, ch or 'none', res['brief'][k][0], res['brief'][k][1])))
+    pname = {'A': 'build, load, train()/eval(), forward', 'B': 'build from a seed already in the mode of the original, load, forward (no mode call)',
+             'C': 'build, train()/eval(), load, forward'}
+    for pr, eq in res['eqs'].items():
+        for k in OBS:
+            if not eq[k]:
+                opt = ch[0] if ch else 'no-option-change'
+                key = 'resume-differs:%s:%s:%s' % (m, opt, k) + ('' if (ch or pr == 'A') else ':protocol-%s' % pr)
+                out.append((key,
+                            '%s of the restored %s wrapper differs from the original after the forward pass [restart protocol %s: %s] (options changed after construction and not in the state_dict: %s): original %s, restored %s'
+                            % (k, m, pr, pname[pr], ch or 'none', res['briefs'][pr][k][0], res['briefs'][pr][k][1])))
     return out
 
 
@@ -249,7 +258,7 @@ def run(ctx):
                     part = items[off:off + 24]
                     seeds = sorted({c['cfg']['seed'] for c, r in part})
                     defs = ''.join('Definition cfg_s%d : cfg := %s.\n' % (sd, coq(cfg_literal(*[x for x in part if x[0]['cfg']['seed'] == sd][0]))) for sd in seeds)
-                    exprs = ['run_case cfg_s%d [%s] %s' % (c['cfg']['seed'], '; '.join(op_literal(o) for o in r['mops']), coq(Nat(r.get('noise', 1)))) for c, r in part]
+                    exprs = ['run_case (with_training %s cfg_s%d) [%s] %s' % (coq(bool(r['fresh']['view']['training'])), c['cfg']['seed'], '; '.join(op_literal(o) for o in r['mops']), coq(Nat(r.get('noise', 1)))) for c, r in part]
                     jobs.append(('cases_v%d_%d' % (vi, off), defs, exprs, part))
             from concurrent.futures import ThreadPoolExecutor
             with ThreadPoolExecutor(NPROC) as ex:
@@ -285,7 +294,8 @@ def run(ctx):
 def compare(ctx, c, r, mv, mism):
     """model value of run_case vs the implementation's observations of the same case; returns #columns skipped"""
     m = c['cfg']['method']
-    keys, views, (missing, unexpected), resumed, (thetas, effs) = mv
+    keys, views, (missing, unexpected), resumed_all, (thetas, effs) = mv
+    resumed = resumed_all[0]
     ctx.corr += 1
     if sorted(keys) != r['ckpt_keys']:
         d = sorted(set(keys) ^ set(r['ckpt_keys']))
@@ -312,14 +322,13 @@ def compare(ctx, c, r, mv, mism):
     ctx.corr += 1
     ld = r['load']
     if ld['ok']:
-        if sorted(missing) != sorted(ld['missing']) or sorted(unexpected) != sorted(ld['unexpected']) or resumed is None:
+        if sorted(missing) != sorted(ld['missing']) or sorted(unexpected) != sorted(ld['unexpected']) or any(x is None for x in resumed_all):
             mism.append(('load-result', c, {'model': (missing, unexpected), 'impl': ld}))
             return 0
     else:
         if resumed is not None:
             mism.append(('load-result', c, {'model': 'load succeeds', 'impl': ld}))
         return 0
-    pred = resumed[1]
     o = c['cfg']['opts']
     # hard Gumbel sample under a changed SuperNet temperature: the value is the same one-hot up to the rounding of the
     # straight-through expression (1 - s) + s, which depends on the temperature: either outcome is accepted
@@ -327,21 +336,26 @@ def compare(ctx, c, r, mv, mism):
     # a HARD Gumbel sample is a one-hot vector whose position the model does not know (it knows the noise id only): when the
     # model says the coefficients of restored and original are different objects, they can still coincide by chance
     gum_hard = m != 'PIT' and views and views[-1][0] and (o.get('gumbel') or views[-1][3] == 1) and (o.get('hard') or views[-1][2])
-    for k, pv in zip(OBS, pred):
-        ctx.corr += 1
-        if ulp and pv and not r['eq'][k]:
-            ctx.dist['float-boundary:hard-gumbel-temperature'] += 1
+    for pi, pr in enumerate('ABC'):
+        if pr not in r['eqs']:
             continue
-        if gum_hard and not pv and r['eq'][k]:
-            ctx.dist['undecided:hard-gumbel-sample-coincides'] += 1
-            continue
-        if k in ('out', 'export') and not pv and r['eq'][k] and not pred[1] and not r['eq']['cost']:
-            # the coefficients differ (confirmed by the differing cost) but this batch does not show it in the outputs
-            # (e.g. the only channel whose precision differs is dead after ReLU): data coincidence, counted
-            ctx.dist['coincidence:outputs-insensitive-to-differing-coefficients'] += 1
-            continue
-        if pv != r['eq'][k]:
-            mism.append(('resume-%s-equal' % k, c, {'model_predicts_equal': pv, 'impl_equal': r['eq'][k], 'changed': r['changed'], 'brief': r['brief'].get(k)}))
+        pred = resumed_all[pi][1]
+        eq = r['eqs'][pr]
+        for k, pv in zip(OBS, pred):
+            ctx.corr += 1
+            if ulp and pv and not eq[k]:
+                ctx.dist['float-boundary:hard-gumbel-temperature'] += 1
+                continue
+            if gum_hard and not pv and eq[k]:
+                ctx.dist['undecided:hard-gumbel-sample-coincides'] += 1
+                continue
+            if k in ('out', 'export') and not pv and eq[k] and not pred[1] and not eq['cost']:
+                # the coefficients differ (confirmed by the differing cost) but this batch does not show it in the outputs
+                # (e.g. the only channel whose precision differs is dead after ReLU): data coincidence, counted
+                ctx.dist['coincidence:outputs-insensitive-to-differing-coefficients'] += 1
+                continue
+            if pv != eq[k]:
+                mism.append(('resume-%s-equal:protocol-%s' % (k, pr), c, {'model_predicts_equal': pv, 'impl_equal': eq[k], 'changed': r['changed'], 'brief': r['briefs'][pr].get(k)}))
     skipped = 0
     af = r['after_fwd']
     if m != 'PIT':
@@ -388,9 +402,11 @@ def replay(r):
     print('history      :', case['ops'])
     print('required     : load_state_dict(strict=True) into a fresh wrapper succeeds with no missing/unexpected keys; outputs, costs, summary, exported network of restored == original')
     print('load         :', res.get('load'))
-    print('equal        :', res.get('eq'), ' transient options changed after construction:', res.get('changed'))
-    for k, v in (res.get('brief') or {}).items():
-        print('  %s: original %s | restored %s' % (k, v[0], v[1]))
+    print('transient options changed after construction:', res.get('changed'))
+    for pr, eq in (res.get('eqs') or {}).items():
+        print('protocol %s equal:' % pr, eq, '(A: build, load, mode call, forward; B: seed already in the mode, load, forward, no mode call; C: build, mode call, load, forward)')
+        for k, v in res['briefs'][pr].items():
+            print('  %s: original %s | restored %s' % (k, v[0], v[1]))
     bad = oracle(case, res)
     for key, what in bad:
         print('  FAILS:', key)
